@@ -318,6 +318,16 @@ pub fn generate(kind: &str, thorough: bool, seed: u64, corpus: &str, out: &mut O
                 let text = match i % 3 { 0 => format!("{} fragment F on T {{ a zz }}", b), 1 => format!("subscription {} fragment F on I {{ t }}", b), _ => format!("query Q {} fragment F on U {{ __typename a }}", b) };
                 crate::valcases::rules_case(&si, &text, &rules, &tmp, out);
             }
+            // two fields whose type name + field name spell the same string (Dog.name, Do.gname) and have different types
+            {
+                let si = gen::SchemaInfo::new("names", &format!("{}{}", schemas::PRELUDE, schemas::NAMES));
+                out.schema(&si);
+                for t in ["{ dog { name { text } } do { gname { text } } }", "{ do { gname { text } } dog { name { text } } }", "{ dog { name } do { gname } }", "{ do { gname } dog { name } }",
+                          "{ dog { name { text id } } do { gname { text id } } }", "{ do { gname { id } g } dog { name { id } nick } }", "query A { dog { name { text } } } query B { do { gname { id } } }",
+                          "{ dog { ...D } do { ...O } } fragment D on Dog { name { text } } fragment O on Do { gname { text id } }"] {
+                    crate::valcases::rules_case(&si, t, &rules, &tmp, out);
+                }
+            }
             {
                 let si = gen::SchemaInfo::new("decoy-roots", &format!("{}{}", schemas::PRELUDE, schemas::DECOY));
                 out.schema(&si);
@@ -807,6 +817,18 @@ pub fn generate(kind: &str, thorough: bool, seed: u64, corpus: &str, out: &mut O
                     }
                 }
             } }
+            // ---- fragment names that collide when two are written one after the other (Dog+DogName = DogDog+Name; AB+ABA ~ ABA+BA)
+            for (n1, n2, n3, n4) in [("Dog", "DogName", "DogDog", "Name"), ("AB", "ABA", "ABAB", "A"), ("X", "XY", "XX", "Y")] {
+                for (b3, b4) in [("n: name", "n: nick"), ("n: name", "n: name"), ("k: f(x: 1)", "k: f(x: 2)")] {
+                    let frs = format!("fragment {} on Human {{ nn }} fragment {} on Human {{ list }} fragment {} on Human {{ {} }} fragment {} on Human {{ {} }}", n1, n2, n3, b3, n4, b4);
+                    for order in [[0usize, 1, 2, 3], [2, 3, 0, 1], [0, 2, 1, 3], [3, 2, 1, 0], [1, 0, 3, 2]] {
+                        let names = [n1, n2, n3, n4];
+                        let spreads: String = order.iter().map(|i| format!(" ...{}", names[*i])).collect();
+                        group += 1;
+                        emit(format!("{{ human {{{} }} }} {}", spreads, frs), "concat-fragment-names", group, out);
+                    }
+                }
+            }
             // ---- three fields under one key, in every order: the two that conflict need not be neighbours
             {
                 let tv = ["k: name", "k: nn", "k: self { name }", "k: self { nick }", "k: self { name: nick }", "k: f(x: 1)", "k: self { self { name } }", "k: self { self { name: nn } }"];
@@ -1210,6 +1232,8 @@ pub fn generate(kind: &str, thorough: bool, seed: u64, corpus: &str, out: &mut O
                         format!("{{ w {{ g(a{}: {}) }} }}", k, lit),
                         format!("{{ f(box{}: {{v: {}}}) }}", k, lit),
                         format!("{{ f(l{}: [{}]) }}", k, lit),
+                        format!("{{ ... {{ f(a{}: {}) }} }}", k, lit),
+                        format!("{{ w {{ ... @include(if: true) {{ ... {{ g(a{}: {}) }} }} }} }}", k, lit),
                     ];
                     for (p, d) in docs.iter().enumerate() {
                         if thorough || p == i % docs.len() || (p == 0 && shapes[k % shapes.len()].len() <= 1) { crate::valcases::rules_case(&si, d, &rules, &tmp, out); }
